@@ -364,7 +364,7 @@ NO_NORM = {"has": False, "fin0": False, "fin3": False, "fin6": False, "q3": 0, "
 
 
 def blank_run(op):
-    r = {"rejected": False, "raised": False, "convert": False, "accepted": [], "exc": "", "exact": True, "dtype": "", "xnorms": [], "dense2": EMPTY_T, "dense": EMPTY_T, "unf": [], "vec": EMPTY_T,
+    r = {"rejected": False, "raised": False, "convert": False, "accepted": [], "exc": "", "exact": True, "dtype": "", "xnorms": [], "form": "list", "unfn": [], "dense2": EMPTY_T, "dense": EMPTY_T, "unf": [], "vec": EMPTY_T,
          "shape": [], "rank": [], "norm": NO_NORM}
     if op == "cp":
         r["masked"] = EMPTY_T
@@ -375,6 +375,7 @@ def blank_run(op):
         r["slice1"] = []
         r["slices_nv"] = []
         r["slice1_nv"] = []
+        r["slice1n"] = []
     return r
 
 
@@ -398,7 +399,9 @@ def run_tucker_options(inp, how, skip, tr, modes):
         else:
             dense = tl.tucker_to_tensor(mk(), skip_factor=sk, transpose_factors=tr)
             r["dense"] = T(dense)
-            r["unf"] = [T(tl.tucker_to_unfolded(mk(), m, skip_factor=sk, transpose_factors=tr)) for m in range(np.ndim(dense))]
+            nm = np.ndim(dense)
+            r["unf"] = [T(tl.tucker_to_unfolded(mk(), idx(m, nm, False), skip_factor=sk, transpose_factors=tr)) for m in range(nm)]
+            r["unfn"] = [T(tl.tucker_to_unfolded(mk(), idx(m, nm, True), skip_factor=sk, transpose_factors=tr)) for m in range(nm)]
             r["vec"] = T(tl.tucker_to_vec(mk(), skip_factor=sk, transpose_factors=tr))
         r["dense2"] = r["dense"]
         r["dtype"] = str(np.asarray(dense).dtype)
@@ -531,7 +534,28 @@ def run_tucker_options_invalid(inp, skip, tr, modes):
     return r
 
 
-def run_views(op, inp, how, shared=False, objfactory=None):
+def reform(op, t, form):
+    """The same parts in another container form: "tuple" = tuples all the way down, "list" = lists all the way down
+    (fresh() gives the mixed form: an outer tuple holding lists)."""
+    seq = tuple if form == "tuple" else list
+    if form == "mixed":
+        return t
+    if op in ("cp", "tucker"):
+        a, fs = t
+        return seq([a, seq(fs)])
+    if op == "p2":
+        w, fs, ps = t
+        return seq([w, seq(fs), seq(ps)])
+    return seq(t)
+
+
+def idx(i, n, negative):
+    """An index spelled like callers do: Python int or NumPy integer (odd positions), counted from the back when `negative`."""
+    v = i - n if negative else i
+    return np.int64(v) if i % 2 == 1 else int(v)
+
+
+def run_views(op, inp, how, shared=False, objfactory=None, form="mixed"):
     """how = "tuple": module-level functions on the tuple/list form; "object": the wrapper class and its methods.
     shared = every conversion is called, in sequence, on ONE tuple / ONE object (otherwise on a fresh copy each)."""
     api = _api(op)
@@ -545,14 +569,15 @@ def run_views(op, inp, how, shared=False, objfactory=None):
 
     # 1. validation / construction
     try:
+        r["form"] = form
         if objfactory is not None:
             ft = objfactory()
             shape, rank = ft.shape, ft.rank          # (stale: logged for information, not obliged)
         elif how == "tuple":
-            ft = fresh(op, inp)
+            ft = reform(op, fresh(op, inp), form)
             shape, rank = api["validate"](ft)
         else:
-            ft = api["cls"](fresh(op, inp))
+            ft = api["cls"](reform(op, fresh(op, inp), form))
             shape, rank = ft.shape, ft.rank
     except Exception as ex:
         r["rejected"] = True
@@ -568,25 +593,33 @@ def run_views(op, inp, how, shared=False, objfactory=None):
         def mk():
             if shared:
                 if one[0] is None:
-                    one[0] = objfactory() if objfactory else (api["cls"](fresh(op, inp)) if obj else fresh(op, inp))
+                    one[0] = objfactory() if objfactory else (api["cls"](reform(op, fresh(op, inp), form)) if obj else reform(op, fresh(op, inp), form))
                 return one[0]
             if objfactory:
                 return objfactory()
-            return api["cls"](fresh(op, inp)) if obj else fresh(op, inp)
+            return api["cls"](reform(op, fresh(op, inp), form)) if obj else reform(op, fresh(op, inp), form)
         dense = mk().to_tensor() if obj else api["to_tensor"](mk())
         r["dense"] = T(dense)
         r["dtype"] = str(np.asarray(dense).dtype)
         nmodes = np.ndim(dense)
-        unf = []
-        for m in range(nmodes):
+        T2 = make_T(inp, [True], scale)        # for the views judged by their own clause: a wrong value there is not "inexact"
+
+        def unfold_view(m, negative):
+            # the mode as a Python int or a NumPy integer, from the front or (negative) from the back
+            i = idx(m, nmodes, negative)
+            TT = T2 if negative else T
             if obj:
                 o = mk()
                 # CP / Tucker / PARAFAC2 wrappers call the view to_unfolded, TT / TR / TT-matrix to_unfolding
                 meth = o.to_unfolded if "to_unfolded" in type(o).__dict__ else o.to_unfolding
-                unf.append(T(meth(m)))
-            else:
-                unf.append(T(api["to_unfolded"](mk(), m)))
-        r["unf"] = unf
+                return TT(meth(i))
+            return TT(api["to_unfolded"](mk(), i))
+        r["unf"] = [unfold_view(m, False) for m in range(nmodes)]
+        try:
+            r["unfn"] = [unfold_view(m, True) for m in range(nmodes)]
+        except Exception as ex:                       # judged by its own clause (UnfoldedNeg)
+            r["unfn"] = []
+            r["exc"] = "unfn: %s: %s" % (type(ex).__name__, str(ex)[:80])
         r["vec"] = T(mk().to_vec() if obj else api["to_vec"](mk()))
         if obj:
             r["norm"] = _norm_json(mk().norm(), nscale)
@@ -606,12 +639,22 @@ def run_views(op, inp, how, shared=False, objfactory=None):
         if op == "cp":
             mden = inp.get("mden", 1)
             mask = inp["mask"].astype(bool) if inp.get("maskbool") else inp["mask"] / mden
-            r["masked"] = T(np.asarray(api["to_tensor"](mk(), mask=mask)) * mden)
+            try:
+                r["masked"] = T(np.asarray(api["to_tensor"](mk(), mask=mask)) * mden)
+            except Exception as ex:                   # judged by its own clause (Masked)
+                r["masked"] = EMPTY_T
+                r["exc"] = "masked: %s: %s" % (type(ex).__name__, str(ex)[:80])
         if op == "ttm":
             r["matrix"] = T(mk().to_matrix() if obj else api["to_matrix"](mk()))
         if op == "p2":
             r["slices"] = [T(s) for s in api["to_slices"](mk())]
-            r["slice1"] = [T(api["to_slice"](mk(), i)) for i in range(len(inp["ps"]))]
+            ns = len(inp["ps"])
+            r["slice1"] = [T(api["to_slice"](mk(), idx(i, ns, False))) for i in range(ns)]
+            try:
+                r["slice1n"] = [T2(api["to_slice"](mk(), idx(i, ns, True))) for i in range(ns)]      # counted from the back
+            except Exception as ex:                   # judged by its own clause (SliceNeg)
+                r["slice1n"] = []
+                r["exc"] = "slice1n: %s: %s" % (type(ex).__name__, str(ex)[:80])
             r["slices_nv"] = [T(s) for s in api["to_slices"](mk(), validate=False)]
             r["slice1_nv"] = [T(api["to_slice"](mk(), i, validate=False)) for i in range(len(inp["ps"]))]
         r["dense2"] = T(mk().to_tensor() if obj else api["to_tensor"](mk()))
@@ -619,6 +662,7 @@ def run_views(op, inp, how, shared=False, objfactory=None):
     except Exception as ex:
         r2 = blank_run(op)
         r2["raised"] = True
+        r2["form"] = form
         r2["exc"] = "%s: %s" % (type(ex).__name__, str(ex)[:120])
         return r2
     return r
